@@ -186,10 +186,11 @@ def run(ctx):
 
 
 def run_conc(ctx, binp, quick):
-    """the concurrent variant: quick = plain binary, thorough = race-detector binary"""
+    """the concurrent variant, with the race-detector binary when cgo is usable (both tiers;
+    thorough runs many more chains and rounds)"""
     info = {"race_detector": False}
     cbin = binp
-    if not quick:
+    if True:
         if shutil.which("gcc") or shutil.which("cc"):
             rb, log = ctx.build_harness("c15", race=True)
             if rb:
